@@ -200,7 +200,8 @@ def gen_case(cid, mods_text, actions):
             expect[ai] = exp
         elif k == "vftacc":
             lines += ["let mut buf = [0u64; 256];", f"let obj = buf.as_mut_ptr() as *mut {T};",
-                      "let planted = 0x7711_2200usize + 8;", "*(obj as *mut usize) = planted;",
+                      "let planted = 0x7711_2200usize + 8;",
+                      ("*(::core::ptr::addr_of_mut!((*obj).%s) as *mut usize) = planted;" % ".".join(a["path"])) if a.get("path") else "*(obj as *mut usize) = planted;",
                       "let r = (*obj).vftable() as usize as u64;",
                       f"crate::__rig::end({cid}, {ai}, obj as usize, r, \"\");"]
             expect[ai] = {"kind": k, "ret": 0x7711_2200 + 8, "what": f"{'::'.join(a['ty'])}::vftable()"}
